@@ -102,6 +102,9 @@ func (f *Fake) Injected() int { f.mu.Lock(); defer f.mu.Unlock(); return f.injec
 // TotalRequests returns the number of requests served.
 func (f *Fake) TotalRequests() int { f.mu.Lock(); defer f.mu.Unlock(); return f.seq }
 
+// Cur returns the height of the directory block the daemon asked for last.
+func (f *Fake) Cur() uint32 { f.mu.Lock(); defer f.mu.Unlock(); return f.cur }
+
 // IdlePolls returns how many times in a row the daemon has asked for `heights` without asking for anything else
 // since (and since the cap was last raised): a daemon with work to do asks for the next directory block right
 // after the first such answer.
